@@ -60,6 +60,7 @@ static const char *g_ini;
 static int g_timeout_ms = 20000;
 static int g_lift_fsize_after_call;
 static int g_pre_errno;
+static __thread int t_last_errno;
 static int g_track_pending;            /* errno value the "caller" has when it enters the wrapped call */
 static size_t g_thread_stack;      /* stack size for threads created by 'Z' (0 = default) */
 static int g_markers;      /* oneshot mode: bracket the wrapper window with prctl(MARK, 1|2|3) for the tracer */
@@ -566,10 +567,12 @@ static void call_run(call_t *c)
     if (c->snap) { pthread_mutex_lock(&ev_mutex); state_snapshot(&ps0); pthread_mutex_unlock(&ev_mutex); }
     c->h0 = c->snap ? heap_now() : 0;
     if (g_markers) prctl(MARK, 1, 0, 0, 0);
-    errno = g_pre_errno;
+    /* errno on entry: the given value, or (-1) whatever the previous wrapped call of this thread left behind, as in a real caller */
+    errno = g_pre_errno == -1 ? t_last_errno : g_pre_errno;
     if (c->kind == 1) ret = execve(c->path, c->argv, c->envp);
     else ret = execv(c->path, c->argv);
     err = errno;
+    t_last_errno = err;
     if (g_lift_fsize_after_call) { struct rlimit rl; getrlimit(RLIMIT_FSIZE, &rl); rl.rlim_cur = rl.rlim_max; setrlimit(RLIMIT_FSIZE, &rl); g_lift_fsize_after_call = 0; }
     if (g_markers) prctl(MARK, 3, 0, 0, 0);
     c->h2 = c->snap ? heap_now() : 0;
